@@ -103,6 +103,17 @@ func (y *YieldCtl) pause(at PauseAt) {
 	y.mu.Unlock()
 }
 
+// Park parks the calling goroutine like a scheduled pause does (released by the monitor at a quiescent point, in the
+// schedule's order), without a yield point: used by transports whose Write returns late. No-op when nothing is armed.
+func (y *YieldCtl) Park(label int) {
+	if !y.armed.Load() {
+		return
+	}
+	y.mu.Lock()
+	Seq.Add(1)
+	y.pause(PauseAt{Point: label, Hit: 0})
+}
+
 // ReleaseOne lets one parked goroutine continue (oldest first, or newest first
 // when the schedule says lifo). Returns false if none is parked.
 func (y *YieldCtl) ReleaseOne() (PauseAt, bool) {
